@@ -1,7 +1,7 @@
 (* C19 -- Type descriptions round-trip and inferred schemas accept their data.
    Only statements, each closed by [exact] of a lemma from PV.Proofs.Types*. *)
 From Coq Require Import ZArith NArith List Bool String PrimFloat.
-Require Import PV.Base.Val PV.Gen.TypeTables PV.Model.Types PV.Proofs.TypesJson PV.Proofs.TypesRows PV.Proofs.TypesInfer PV.Proofs.TypesEqv PV.Proofs.TypesOrder.
+Require Import PV.Base.Val PV.Gen.TypeTables PV.Model.Types PV.Proofs.TypesJson PV.Proofs.TypesRows PV.Proofs.TypesInfer PV.Proofs.TypesEqv PV.Proofs.TypesOrder PV.Proofs.TypesNamed.
 Import ListNotations.
 Open Scope Z_scope.
 
@@ -316,4 +316,35 @@ Example extra_fields_regression :
     (PRow [lit "a"; lit "b"] [PInt 1; PInt 2]) = Ok (PRow [lit "a"; lit "a"; lit "b"] [PInt 1; PInt 1; PInt 2]) /\
   to_internal 0 (TStruct [SField (lit "a") (TAtom ALong) true []])
     (PRow [lit "a"; lit "a"] [PInt 1; PInt 2]) = Ok (PRow [lit "a"; lit "a"] [PInt 1; PInt 2]).
+Proof. vm_compute. repeat split. Qed.
+
+(* ---- createDataFrame(rows, [names]) -- the schema argument is a list of column names (session.py since 022f1f2):
+   for every inferable tree, every list of rows of it (nulls anywhere) whose schema can be inferred and every list of
+   at most as many names (the own names, a permutation of them, fresh, fewer, repeated), the struct keeps the types
+   of the no-schema inference, takes the given names position by position (own names for the remaining positions),
+   and every row comes back with its VALUES IN THEIR ORIGINAL POSITIONS ([relabel] only replaces the names).
+   Rows built from keyword arguments, Rows built positionally from a Row class and (top-level) namedtuples are this case; plain tuples
+   and the RDD input path: correspondence + oracle. *)
+Theorem C19_create_named_id : forall local fs rows given s,
+  inferable (TStruct fs) -> Forall (is_row_of (TStruct fs)) rows ->
+  (List.length given <= List.length fs)%nat ->
+  infer_schema_from_list rows = Ok s ->
+  exists fs', map sf_name fs' = given ++ skipn (List.length given) (map sf_name fs) /\
+              map sf_ty fs' = map sf_ty fs /\
+              create_named local given rows
+                = Ok (TStruct fs', map (fun r => relabel (map sf_name fs') (tz_local local r)) rows).
+Proof. exact create_named_id. Qed.
+
+(* regression (022f1f2): Row(a=1, b=10) under ['b','a'] keeps 1 first; under ['v','v'] no value is lost; a plain
+   tuple gives the same values *)
+Example create_named_regression :
+  create_named 0 [lit "b"; lit "a"] [PRow [lit "a"; lit "b"] [PInt 1; PInt 10]]
+    = Ok (TStruct [SField (lit "b") (TAtom ALong) true []; SField (lit "a") (TAtom ALong) true []],
+          [PRow [lit "b"; lit "a"] [PInt 1; PInt 10]]) /\
+  create_named 0 [lit "v"; lit "v"] [PRow [lit "a"; lit "b"] [PInt 1; PInt 10]]
+    = Ok (TStruct [SField (lit "v") (TAtom ALong) true []; SField (lit "v") (TAtom ALong) true []],
+          [PRow [lit "v"; lit "v"] [PInt 1; PInt 10]]) /\
+  create_named_rdd 0 [lit "b"] [PTuple [PInt 1; PInt 10]]
+    = Ok (TStruct [SField (lit "b") (TAtom ALong) true []; SField (lit "_2") (TAtom ALong) true []],
+          [PRow [lit "b"; lit "_2"] [PInt 1; PInt 10]]).
 Proof. vm_compute. repeat split. Qed.
